@@ -140,13 +140,14 @@ def c07(ctx):
             ctx.vh_json(["rec", cp, cp + ".out"])
             again = ctx.tlc_trace("ReconcileTrace", "ReconcileTrace.cfg", cp + ".out", label="confirmation")
             if again["viols"]:
-                ctx.add_violation("C07 (direct call of interpreter.Reconcile): %s | senders=%s receivers=%s postings=%s" % (v["what"], rec["snd"], rec["rcv"], rec["post"]),
+                ctx.add_violation("C07 (direct call of interpreter.Reconcile): %s | senders=%s receivers=%s postings=%s | factor %s -> %s" % (v["what"], rec["snd"], rec["rcv"], rec["post"], rec.get("factor"), rec.get("bigpost")),
                                   dict(kind="rec", property="C07", case={"snd": rec["snd"], "rcv": rec["rcv"]}, observed=rec["post"]))
             else:
                 raise Infra("candidate did not reproduce")
     n, b = scale(ctx, (2500, 4), (6000, 16))
     sem.trace_batches(ctx, "pair", "MachineTrace_C07.cfg", n, b)
     sem.trace_batches(ctx, "pairvars", "MachineTrace_C07.cfg", n, b)     # amounts / caps through re-used variables, several statements
+    sem.scale_sem(ctx, "pair", "MachineTrace_C07.cfg", scale(ctx, 1000, 10000))   # amounts around and beyond 2^63 / 2^64
     sem.repo_corpus(ctx, "MachineTrace_C07.cfg")
     return ctx.finish("model_checking", "exhaustive: all sender/receiver lists up to the bound (Reconcile.tla initial states, equal sums) fed to interpreter.Reconcile; "
                       "plus random whole sends of the 'pair' corpus judged on flow matrices; non-trivial = >= 2 postings")
